@@ -5,6 +5,7 @@ import json, os, re, sys
 ROOT = os.path.dirname(os.path.dirname(os.path.abspath(__file__)))
 SEEDED, RESULTS = (sys.argv[1:3] if len(sys.argv) >= 3 else ("seeded", "scratch/seed_results"))
 SECTION = "8.8" if SEEDED == "seeded" else "8.9"
+LOGNAME = (sys.argv[3] if len(sys.argv) >= 4 else "{pid}.log")  # e.g. "seeded3-{pid}.log" for scratch/seedfinal
 for pid in sorted(os.listdir(f"{ROOT}/{SEEDED}")):
     d = f"{ROOT}/{SEEDED}/{pid}"
     if not os.path.isdir(d): continue
@@ -12,21 +13,23 @@ for pid in sorted(os.listdir(f"{ROOT}/{SEEDED}")):
     lines = [l.strip("-* \t") for l in notes.splitlines() if l.strip() and not l.startswith("#")]
     what = next((l for l in lines if re.match(r"(?i)(\*\*)?(change|what)", l)), lines[0] if lines else "")
     needs = next((l for l in lines if re.search(r"(?i)need|manifest|shows only|trigger", l) and l != what), "")
-    log = f"{ROOT}/{RESULTS}/{pid}.log"
+    log = f"{ROOT}/{RESULTS}/" + LOGNAME.format(pid=pid)
     tests = " ".join(l for l in lines if re.match(r"(?i)tests? run", l))[:600]
     res = open(log).read() if os.path.exists(log) else ""
     g = lambda k: (re.search(rf"{k}=(\d+)", res) or [None, None])[1]
     viol = re.findall(r"^VIOLATION property=\S+ replay=(\S+)", res, re.M)
     caught = g("check_rc") == "1" and bool(viol)
+    hdr = re.search(r"^== (C\d\d) ", res, re.M)
+    check_id = hdr.group(1) if hdr else pid[:3]  # the check that was run (differs from the property for seeded3/C01C)
     prop = pid[:3]
     meta = dict(property=prop, name=f"seed-{pid}", what=what[:600], needs=needs[:600],
                 origin="fresh sub-agent given only the property text and a scratch git worktree (nothing from /verif)",
                 ran=["tools/seed_eval.sh %s/%s %s  (scratch copy of /repo HEAD: demo on clean copy, git apply patch.diff, demo on patched copy, "
-                     "./check %s --tier quick with VERIF_REPO=<copy>)" % (SEEDED, pid, prop, prop),
+                     "./check %s --tier quick with VERIF_REPO=<copy>)" % (SEEDED, pid, check_id, check_id),
                      ("full test suite on the patched copy: see DESIGN.md 8.8" if SEEDED == "seeded" else
                       "existing tests with the patch, as run by the sub-agent: " + (tests or "see notes.md") + "; combined full-suite runs: see DESIGN.md 8.9")],
                 demo_clean_rc=g("demo_clean_rc"), patch_applies=g("apply_rc") == "0", demo_patched_rc=g("demo_patched_rc"),
-                check_rc=g("check_rc"), caught=caught, caught_by=f"./check {prop} --tier quick ({len(viol)} replayed violations)" if caught else "",
+                check_rc=g("check_rc"), caught=caught, caught_by=f"./check {check_id} --tier quick ({len(viol)} replayed violations)" if caught else "",
                 missed_why="" if caught else f"see DESIGN.md {SECTION}")
     json.dump(meta, open(f"{d}/meta.json", "w"), indent=1)
     print(pid, caught, meta["demo_clean_rc"], meta["demo_patched_rc"], meta["check_rc"])
